@@ -11,6 +11,7 @@ import (
 	"os"
 	"runtime"
 	"strconv"
+	"sync"
 )
 
 type Replay struct {
@@ -135,6 +136,20 @@ func Note(s string)               {}
 func Steps() int64                { return 0 }
 func Goroutines() int             { return 0 }
 func AtomicYield(on bool)         {}
+func Activity(n int)              {}
+
+// Concurrent runs f1 and f2 on two goroutines (the replay binary is built with
+// -race, so an unsynchronised conflicting access fails the test).
+func Concurrent(f1, f2 func()) {
+	var wg sync.WaitGroup
+	wg.Add(2)
+	go func() { defer wg.Done(); f1() }()
+	go func() { defer wg.Done(); f2() }()
+	wg.Wait()
+}
+func Races() int                  { return 0 }
+func RaceText(k int) string       { return "" }
+func PollValue() int64            { return 0 }
 func Handoff()                    { runtime.Gosched() }
 func Yield()                      { runtime.Gosched() }
 func SetHook(name string, f func()) {}
